@@ -472,6 +472,8 @@ class Interp:
                     if p is not False:
                         parts.append(zbool(p))
                 return simp(z3.Or(*parts)) if parts else False
+            if o.kind == "sdict":
+                return z3.Select(o.data["dom"], zint(self.as_int(item)))
             if o.kind == "slist":
                 i = z3.Int(st.fresh_name("in_i"))
                 t = ropes.seq_term(st, o.data)
@@ -810,10 +812,14 @@ class Interp:
                 return self.slist_elem(o, ropes.index_norm(st, o.data, i))
             if o.kind == "dict":
                 return self.dict_get(o, idx, fr, site)
+            if o.kind == "sdict":
+                return self.sdict_get(o, idx, fr, site)
             if o.kind == "obj":
                 m = self.E.find_attr(o.cls, "__getitem__")
                 if m:
                     return self.call_value(VFunc(m["v"], base), [idx], {}, fr, site)
+                if self.E.contract_of(o.cls + ".__getitem__"):
+                    return self.call_value(VFunc(o.cls + ".__getitem__", base), [idx], {}, fr, site)
         if isinstance(base, VExc):
             return self.index_items(base.args, idx, fr, site)
         raise Unsupported("index of %s" % self.type_name(base))
@@ -844,6 +850,25 @@ class Interp:
             if k == n - 1 or st.decide(zint(i) == k):
                 return items[k]
         raise PathEnd()
+
+    def sdict_get(self, o, key, fr, site, default=None):
+        """lookup in a symbolic int-keyed dict: domain predicate + one value object per key term"""
+        st = self.st
+        k = zint(self.as_int(key))
+        present = z3.Select(o.data["dom"], k)
+        if not fr.spec:
+            st.ghost["key_of_" + o.data["hint"]] = VInt(k)
+        if not fr.spec:
+            if not st.decide(present):
+                if default is not None:
+                    return default
+                self.raise_py("KeyError", "symbolic key", site)
+        for kk, vv in o.data["vals"]:
+            if kk.eq(k) or st.proves(kk == k):
+                return vv
+        v = self.fresh_of_type(o.data["valtype"], "%s[%s]" % (o.data["hint"], len(o.data["vals"])))
+        o.data["vals"].append((k, v))
+        return v
 
     def dict_get(self, o, key, fr, site, default=None):
         st = self.st
@@ -992,7 +1017,7 @@ class Interp:
             o = st.heap[base.ref]
             if o.kind == "obj":
                 return self.get_field(base, name, fr, site)
-            return VFunc("%s.%s" % (o.kind if o.kind != "slist" else "list", name), base)
+            return VFunc("%s.%s" % ({"slist": "list", "sdict": "dict"}.get(o.kind, o.kind), name), base)
         if isinstance(base, VSeq):
             return VFunc("%s.%s" % ("str" if base.pytype == "str" else "bytes", name), base)
         if isinstance(base, VModule):
@@ -1174,6 +1199,13 @@ class Interp:
                 st.assume(smt.slen(t) >= 0)
                 st.heap[r.ref].data = VSeq([Seg("A", t, smt.slen(t))], "list")
                 return r
+        if ty.startswith("sdict[") and ty.endswith("]"):
+            kt, vt = split_top(ty[6:-1])
+            r = st.alloc("dict", "sdict")
+            dom = z3.Array(st.fresh_name(hint + "!dom"), smt.Int, smt.Bool)
+            st.heap[r.ref].data = dict(dom=dom, valtype=vt, vals=[], hint=hint)
+            st.heap[r.ref].hint = hint
+            return r
         if ty.startswith("const:"):
             return self.from_py(eval(ty[6:], {}))
         if ty == "callable":
